@@ -264,7 +264,8 @@ def shrink(P, script, fails):
     cur = ops
     n = 2
     budget = 400
-    while len(cur) >= 2 and budget > 0:
+    t_end = time.time() + 90       # wall-clock cap: a failing script may be one that hangs until the watchdog fires
+    while len(cur) >= 2 and budget > 0 and time.time() < t_end:
         chunk = max(1, len(cur) // n)
         reduced = False
         for i in range(0, len(cur), chunk):
@@ -275,7 +276,7 @@ def shrink(P, script, fails):
                 n = max(n - 1, 2)
                 reduced = True
                 break
-            if budget <= 0:
+            if budget <= 0 or time.time() > t_end:
                 break
         if not reduced:
             if chunk == 1:
